@@ -4,6 +4,9 @@ T(k, x) == [k |-> k, x |-> x]
 (* small alphabet for the exhaustive run *)
 SmallNames == <<"a", "b-c", "b_c">>
 SmallToks == <<T("int", 1), T("str_int", 2), T("str_padded", 1)>>
+(* smaller alphabet for the deeper exhaustive run of the thorough tier *)
+TinyNames == <<"b-c", "b_c">>
+TinyToks == <<T("str_int", 2), T("str_padded", 1)>>
 (* rich alphabet for simulation *)
 RichNames == <<"a", "b-c", "b_c", "z9">>
 RichToks == <<T("int", 1), T("int", 3), T("float", 0), T("float", 2), T("str_plain", 0), T("str_plain", 2),
